@@ -1,6 +1,10 @@
 //! rv: property-based verification harness for Ruschm (see /verif/DESIGN.md).
+pub mod ast;
 pub mod checks;
+pub mod gen;
+pub mod refeval;
 pub mod numgrid;
+pub mod progcheck;
 pub mod reflex;
 pub mod refnum;
 pub mod runner;
